@@ -101,7 +101,7 @@ func (b *box) readInnerBox() (inner box, next bool, err error) {
 
 	buf, err := b.Peek(16)
 	if err != nil {
-		return inner, false, errors.Wrap(ErrBufLength, "readBox")
+		return inner, false, errors.WithMessage(ErrBufLength, "readBox")
 	}
 	inner.reader = b.reader
 	inner.outer = b
@@ -137,7 +137,7 @@ func (b *box) readInnerBox() (inner box, next bool, err error) {
 func (b *box) readUint16() (uint16, error) {
 	buf, err := b.Peek(2)
 	if err != nil {
-		return 0, errors.Wrap(ErrBufLength, "readUint16")
+		return 0, errors.WithMessage(ErrBufLength, "readUint16")
 	}
 	_, err = b.Discard(2)
 	return bmffEndian.Uint16(buf[:2]), err
@@ -147,7 +147,7 @@ func (b *box) readUint16() (uint16, error) {
 func (b *box) readUUID() (u meta.UUID, err error) {
 	buf, err := b.Peek(16)
 	if err != nil {
-		return u, errors.Wrap(ErrBufLength, "readUUID")
+		return u, errors.WithMessage(ErrBufLength, "readUUID")
 	}
 	if err = u.UnmarshalBinary(buf); err != nil {
 		return u, err
@@ -199,7 +199,7 @@ type flags uint32
 func (b *box) readFlags() error {
 	buf, err := b.Peek(4)
 	if err != nil {
-		return errors.Wrap(ErrBufLength, "readFlags")
+		return errors.WithMessage(ErrBufLength, "readFlags")
 	}
 	b.readFlagsFromBuf(buf)
 	_, err = b.Discard(4)
